@@ -3,6 +3,14 @@
  * through the metatype's conversion, child order, link consistency).
  * Case line:   <id> <fmt> <accept> <text>     (written by ml/c09_driver.ml from the tree + decoration)
  * Tokens:      t<text length>.<hash>  r<return code>  d<tree>  L<leak verdict>
+ *
+ * Second family (the value store behind a node, mptcore/meta/meta_new.c, meta_geninfo.c, array/meta_buffer.c):
+ * Case line:   <id> m <value> <op> ...        value as comma separated chunks <hex> | <hexbyte>*<count>, "-" = empty
+ *   newv / news / newi   mpt_meta_new from a vector of char (what the parser hands over) / a string pointer / an int
+ *   newg / newb          mpt_meta_geninfo + _mpt_geninfo_set / mpt_meta_buffer over an array with the text and no terminator
+ *   kind str vec iter self buf ref   the conversions 0, 's', vector of char, iterator, metatype, buffer and addref
+ *   clone                replace the metatype by its clone
+ * one token per operation, L<leak verdict> at the end
  */
 #include "common.h"
 #include <sys/uio.h>
@@ -11,6 +19,7 @@
 #include "config.h"
 #include "types.h"
 #include "parse.h"
+#include "array.h"
 
 int __lsan_do_recoverable_leak_check(void);
 
@@ -102,8 +111,17 @@ static void dump_forest(const MPT_STRUCT(node) *parent)
 			/* all stored bytes (a value can hold a NUL the input had), without the terminator */
 			if (c->_vptr->convert(c, MPT_type_toVector('c'), &vec) >= 0) {
 				size_t l = vec.iov_len;
+				MPT_INTERFACE(iterator) *it = 0;
 				if (l && !((const char *) vec.iov_base)[l - 1]) --l;
 				abbr(vec.iov_base, l);
+				/* the other views a metatype answers show the same text */
+				if (c->_vptr->convert(c, 's', &s) >= 0 && (!s || strlen(s) != l || memcmp(s, vec.iov_base, l))) vh_add("!str");
+				if (c->_vptr->convert(c, MPT_ENUM(TypeIteratorPtr), &it) >= 0 && it) {
+					const MPT_STRUCT(value) *v = it->_vptr->value(it);
+					const char *x = (v && v->_type == 's') ? *(const char * const *) v->_addr : 0;
+					if (!x || strlen(x) != l || memcmp(x, vec.iov_base, l) || it->_vptr->advance(it) > 0) vh_add("!iter");
+					it->_vptr->reset(it);
+				}
 			}
 			else if (c->_vptr->convert(c, 's', &s) >= 0) { if (s) abbr(s, strlen(s)); }
 			else vh_add("?");
@@ -116,6 +134,109 @@ static void dump_forest(const MPT_STRUCT(node) *parent)
 	}
 }
 
+/* ---- the metatype behind a value */
+static void show_bytes(const void *p, size_t n) { if (!n) vh_add("-"); else abbr(p, n); }
+static void run_meta(int ntok, char **tok)
+{
+	MPT_INTERFACE(metatype) *mt = 0;
+	size_t len; int i;
+	uint8_t *raw = parse_input(tok[2], &len);
+	char *txt = malloc(len + 1);        /* exact size: the text and its terminator */
+	memcpy(txt, raw, len); txt[len] = 0;
+	free(raw);
+	for (i = 3; i < ntok; i++) {
+		const char *op = tok[i];
+		MPT_INTERFACE(convertable) *c = (MPT_INTERFACE(convertable) *) mt;
+		if (!strncmp(op, "new", 3)) {
+			MPT_STRUCT(value) val; struct iovec vec; const char *sp = txt; int32_t num = 42;
+			if (mt) { mt->_vptr->unref(mt); mt = 0; }
+			if (op[3] == 'v') {
+				/* no terminator behind the bytes, as in the path buffer of the parser */
+				vec.iov_base = malloc(len ? len : 1); vec.iov_len = len;
+				memcpy(vec.iov_base, txt, len);
+				MPT_value_set(&val, MPT_type_toVector('c'), &vec);
+				mt = mpt_meta_new(&val);
+				free(vec.iov_base);
+			}
+			else if (op[3] == 's') { MPT_value_set(&val, 's', &sp); mt = mpt_meta_new(&val); }
+			else if (op[3] == 'g') {
+				/* the basic metatype itself: room for the text, then the text */
+				if ((mt = mpt_meta_geninfo(len)) && _mpt_geninfo_set(mt + 1, txt, (int) len) < 0) { mt->_vptr->unref(mt); mt = 0; }
+			}
+			else if (op[3] == 'b') {
+				/* buffer metatype over an array holding the text WITHOUT terminator */
+				MPT_STRUCT(array) a = MPT_ARRAY_INIT;
+				const MPT_STRUCT(type_traits) *traits = mpt_type_traits('c');
+				MPT_STRUCT(buffer) *b = len ? mpt_array_reserve(&a, len, traits) : 0;
+				if (b && mpt_buffer_set(b, traits, 0, txt, len) < 0) vh_tok("?set");
+				mt = mpt_meta_buffer(&a);
+				mpt_array_clone(&a, 0);
+			}
+			else { MPT_value_set(&val, 'i', &num); mt = mpt_meta_new(&val); }
+			vh_tok("N%d", mt ? 1 : 0);
+			continue;
+		}
+		if (!mt) { vh_tok("X"); continue; }
+		if (!strcmp(op, "kind")) {
+			const uint8_t *f = 0; int r = c->_vptr->convert(c, 0, &f);
+			vh_tok("K%d:", r);
+			if (f) while (*f) vh_add("%02x", *f++);
+		}
+		else if (!strcmp(op, "str")) {
+			const char *sp = "?"; int r = c->_vptr->convert(c, 's', &sp);
+			if (r < 0) vh_tok("S!%d", r);
+			else { vh_tok("S"); if (!sp) vh_add("null"); else show_bytes(sp, strlen(sp)); }
+		}
+		else if (!strcmp(op, "vec")) {
+			struct iovec vec = { 0, 0 }; int r = c->_vptr->convert(c, MPT_type_toVector('c'), &vec);
+			if (r < 0) vh_tok("V!%d", r);
+			else {
+				size_t l = vec.iov_len;
+				vh_tok("V%zu:", l);
+				if (l && !((const char *) vec.iov_base)[l - 1]) --l;
+				show_bytes(vec.iov_base, l);
+			}
+		}
+		else if (!strcmp(op, "iter")) {
+			MPT_INTERFACE(iterator) *it = 0; int r = c->_vptr->convert(c, MPT_ENUM(TypeIteratorPtr), &it);
+			if (r < 0 || !it) vh_tok("I!%d", r);
+			else {
+				int n = 0, a = -99;
+				vh_tok("I");
+				do {
+					const MPT_STRUCT(value) *v = it->_vptr->value(it);
+					if (n) vh_add(",");
+					if (!v) { vh_add("none"); break; }
+					if (v->_type == 's') { const char *x = *(const char * const *) v->_addr; vh_add("s"); if (x) show_bytes(x, strlen(x)); else vh_add("null"); }
+					else if (v->_type == MPT_type_toVector('c')) { const struct iovec *x = v->_addr; vh_add("v"); show_bytes(x->iov_base, x->iov_len); }
+					else vh_add("t%d", (int) v->_type);
+				} while (++n < 64 && (a = it->_vptr->advance(it)) > 0);
+				vh_add("/%d", n < 64 ? a : 99);
+				vh_add("/%d", it->_vptr->reset(it));
+			}
+		}
+		else if (!strcmp(op, "self")) {
+			void *p = 0; int r = c->_vptr->convert(c, MPT_ENUM(TypeMetaPtr), &p);
+			vh_tok("P%d", r >= 0 && p == (void *) mt);
+		}
+		else if (!strcmp(op, "buf")) {
+			const MPT_STRUCT(buffer) *b = 0; int r = c->_vptr->convert(c, MPT_ENUM(TypeBufferPtr), &b);
+			if (r < 0) vh_tok("B!%d", r); else vh_tok("B%zu", b ? b->_used : (size_t) 0);
+		}
+		else if (!strcmp(op, "ref")) vh_tok("R%d", (int) mt->_vptr->addref(mt));
+		else if (!strcmp(op, "clone")) {
+			MPT_INTERFACE(metatype) *cl = mt->_vptr->clone(mt);
+			mt->_vptr->unref(mt);
+			mt = cl;
+			vh_tok("C%d", mt ? 1 : 0);
+		}
+		else vh_tok("?");
+	}
+	if (mt) mt->_vptr->unref(mt);
+	free(txt);
+	vh_tok("L%d", __lsan_do_recoverable_leak_check() ? 1 : 0);
+}
+
 static void run_case(int ntok, char **tok)
 {
 	char *fmt, *acc;
@@ -124,6 +245,7 @@ static void run_case(int ntok, char **tok)
 	MPT_STRUCT(node) root = MPT_NODE_INIT;
 	int ret;
 	if (ntok < 4) return;
+	if (!strcmp(tok[1], "m")) { run_meta(ntok, tok); return; }
 	fmt = cstr(tok[1]);
 	acc = cstr(tok[2]);
 	mpt_parse_accept(&parse.name, acc);
